@@ -102,6 +102,25 @@ example :
     ((runTagged (fun _ => none) [(true, .set 1 7), (false, .set 2 9), (true, .get 1), (false, .del 2), (false, .get 2), (true, .get 1)]).filter (·.1)).map (·.2)
       = runSolo (fun _ => none) [.set 1 7, .get 1, .get 1] := by decide
 
+/-! ### the registries themselves: writes under different ids commute -/
+
+/-- two threads storing entries under different render ids: whichever goes first, every lookup sees
+the same registry afterwards -/
+theorem registry_sets_commute {β} (k k' : Nat) (v v' : β) (l : List (Nat × β)) (h : k ≠ k') (x : Nat) :
+    alGet x (alSet k v (alSet k' v' l)) = alGet x (alSet k' v' (alSet k v l)) := by
+  by_cases hx : x = k
+  · subst hx
+    rw [alGet_alSet_same, alGet_alSet_ne _ _ _ _ (Ne.symm h), alGet_alSet_same]
+  · by_cases hx' : x = k'
+    · subst hx'
+      rw [alGet_alSet_ne _ _ _ _ (Ne.symm hx), alGet_alSet_same, alGet_alSet_same]
+    · rw [alGet_alSet_ne _ _ _ _ (Ne.symm hx), alGet_alSet_ne _ _ _ _ (Ne.symm hx'),
+        alGet_alSet_ne _ _ _ _ (Ne.symm hx'), alGet_alSet_ne _ _ _ _ (Ne.symm hx)]
+
+/-- … and deleting one's own entry does not disturb anybody else's -/
+theorem registry_delete_is_private {β} (k k' : Nat) (l : List (Nat × β)) (h : k' ≠ k) :
+    alGet k (alDel k' l) = alGet k l := alGet_alDel_ne k k' l h
+
 /-! ### the provide bookkeeping is not private: a failing interleaving -/
 
 /-- **Known finding (C07).**  Two renders A and B, each with its own `{% provide %}` (ids 10 and 20).
